@@ -1,5 +1,5 @@
 """Property -> rule list. Each rule: (id, text, function(ctx, report))."""
-import rules_cmd, rules_expire, rules_conn, rules_auth, rules_tx, rules_db, rules_zset, rules_rdb
+import rules_cmd, rules_expire, rules_conn, rules_auth, rules_tx, rules_db, rules_zset, rules_rdb, rules_aof
 from shared import SERVER
 
 
@@ -70,6 +70,16 @@ def _c10():
     ]
 
 
+def _c11():
+    return [
+        ("R-AOF-SET", "every dispatcher arm that can reach a dataset mutator is in the write set (AOF, replication, auto-save share it); every write-set name has an arm", rules_aof.rule_set),
+        ("R-AOF-PATH", "every mutator call site reachable from the event loop lies under process_normal_command's append hook, which is gated by is_write_command and precedes the dispatch", rules_aof.rule_path),
+        ("R-AOF-DB", "the appended record determines the database", rules_aof.rule_db),
+        ("R-AOF-RAND", "no command with a random outcome is appended verbatim", rules_aof.rule_rand),
+        ("R-AOF-FRAME", "append_command serialises exactly one Array frame of the command parts and flushes under every fsync policy", rules_aof.rule_frame),
+    ]
+
+
 def _c17():
     return [
         ("R-AUTH-GATE", "every privileged call on the frame path is dominated by the pass edge of the authentication gate (in process_frame by dominance and non-reachability from the refuse edge; outside it nothing privileged runs per frame)", rules_auth.rule_gate),
@@ -124,6 +134,7 @@ REGISTRY = {
     "C08": _c08,
     "C09": _c09,
     "C10": _c10,
+    "C11": _c11,
     "C17": _c17,
     "C18": _c18,
 }
